@@ -89,18 +89,26 @@ def concretise_scen(scen, model, driver):
     return fix(s)
 
 
-def make_worker(prop, evaluate, driver_setup=None):
+def default_symrun(ex, scen, driver_setup=None):
+    from driver import Driver
+    d = Driver(ex, scen)
+    if driver_setup:
+        driver_setup(ex, d)
+    obs = d.run()
+    return obs, d
+
+
+def make_worker(prop, evaluate, driver_setup=None, symrun=None):
     def worker(item):
         from engine import explore
-        from driver import Driver
         cell, scen = item
         ex = runner.get_exec()
 
         def harness(ex):
-            d = Driver(ex, scen)
-            if driver_setup:
-                driver_setup(ex, d)
-            obs = d.run()
+            if symrun:
+                obs, d = symrun(ex, scen)
+            else:
+                obs, d = default_symrun(ex, scen, driver_setup)
             conds = evaluate(prop, scen, obs, SymCtx(d))
             out = []
             for i, m in ex.prove_all(conds)[:2]:
@@ -153,9 +161,9 @@ def random_concrete(scen, rnd):
     return s
 
 
-def validate(rep, native, scens, driver_setup=None):
+def validate(rep, native, scens, driver_setup=None, symrun=None, natrun=None):
     """same concrete scenarios through executor and native build; any difference indicts the engine"""
-    nat = native.run(scens)
+    nat = [natrun(native, s) for s in scens] if natrun else native.run(scens)
 
     def vworker(pair):
         from engine import explore
@@ -165,11 +173,10 @@ def validate(rep, native, scens, driver_setup=None):
         res = {}
 
         def h(ex):
-            d = Driver(ex, scen)
-            if driver_setup:
-                driver_setup(ex, d)
-            ex.hash_order = None
-            res['obs'] = d.run()
+            if symrun:
+                res['obs'], _ = symrun(ex, scen)
+            else:
+                res['obs'], _ = default_symrun(ex, scen, driver_setup)
         st = explore(ex, h, max_paths=1)
         sym = json_norm(res['obs'])
         return {'ok': obs_equal(sym, nobs), 'scen': scen, 'sym': sym, 'nat': nobs}
@@ -183,7 +190,7 @@ def validate(rep, native, scens, driver_setup=None):
 
 
 def scenario_check(prop, tier, seed, items, evaluate, sig_of, bounds, assumptions, rule, expected_cells=None,
-                   n_validate=None, driver_setup=None, hooks=False, chunksize=8):
+                   n_validate=None, driver_setup=None, hooks=False, chunksize=8, symrun=None, natrun=None):
     rep = Report(prop, tier, seed)
     rep.bounds = bounds
     rnd = random.Random(seed)
@@ -193,10 +200,10 @@ def scenario_check(prop, tier, seed, items, evaluate, sig_of, bounds, assumption
     native = Native(hooks)
     nv = n_validate if n_validate is not None else (60 if tier == 'quick' else 200)
     picks = rnd.sample(items, min(nv, len(items)))
-    validate(rep, native, [random_concrete(s, rnd) for _, s in picks], driver_setup)
-    for r in parallel(items, make_worker(prop, evaluate, driver_setup), chunksize=chunksize):
+    validate(rep, native, [random_concrete(s, rnd) for _, s in picks], driver_setup, symrun, natrun)
+    for r in parallel(items, make_worker(prop, evaluate, driver_setup, symrun), chunksize=chunksize):
         rep.absorb(r)
-    triage(rep, native, native_evaluator(prop, evaluate), sig_of)
+    triage(rep, native, native_evaluator(prop, evaluate), sig_of, natrun=natrun)
     if expected_cells is not None:
         missing = set(map(str, expected_cells)) - set(rep.cells)
         if missing:
